@@ -492,7 +492,11 @@ def expr_str(n, depth=0):
         name = (n.get("fn") or "?").split("::")[-1]
         if n.get("ck") == "member" or (n.get("ck") == "operator" and "obj" in n):
             if n.get("ck") == "operator":
+                if n.get("op") == "[]":
+                    return "%s[%s]" % (c("obj"), args)
                 return "%s %s (%s)" % (c("obj"), n.get("op"), args)
+            if n.child("obj") is not None and n.child("obj").get("k") == "this":
+                return "%s(%s)" % (name, args)
             return "%s.%s(%s)" % (c("obj"), name, args)
         if n.get("ck") == "operator":
             return "operator%s(%s)" % (n.get("op"), args)
